@@ -12,7 +12,8 @@ class C07(conncheck.ConnCheck):
     title = 'Every connection attempt yields a well-formed, finite event sequence'
     technique = ('explicit-state exploration (depth-first over environment choices with prefix replay and canonical-state caching) of '
                  'the real WebSocket + WebsocketSession.run() in a simulated transport: server steps x application reactions x connect '
-                 'faults; a monitor automaton checks the event grammar, single terminal event, StopIteration and bounded termination')
+                 'faults, plain and TLS, fake and real (poll/select/kqueue) selectors, time-out configurations with a silent or an endlessly trickling server '
+                 'and an application that repeats close(); a monitor automaton checks the event grammar, single terminal event, StopIteration and bounded termination')
     assumptions = [
         'server alphabet and payload menu are finite (lv.connmodel.FRAME_STEPS); at most 3 fragments per message',
         'ping_rate=0, ping_timeout=None, close_timeout=None here (timers are C15); poll=5 on a virtual clock',
